@@ -1276,7 +1276,7 @@ def run(ctx):
     if not os.environ.get("VERIF_SKIP_PROOF"):
         ctx.try_proof()
     exe = vlib.harness_build(["c15"])["c15"]
-    vlib.coq_make(["Wire/Body.vo", "Wire/Ops.vo", "Wire/BodyExamples.vo", "Wire/BodyAdvanceExamples.vo"])     # the examples are part of the check
+    vlib.coq_make(["Wire/Body.vo", "Wire/Ops.vo", "Wire/BodyExamples.vo", "Wire/BodyAdvanceExamples.vo", "Wire/BodyRollbackExamples.vo"])     # the examples are part of the check
     drv = vlib.ocaml_build("wire")
     r = ctx.sub_rng("c15")
     # only types this harness binary can dispatch (the catalogue may be regenerated next to a running check)
